@@ -157,6 +157,9 @@ def run(ctx):
         ctx.functions.update(funcs)
     generaliser_obligations(ctx)
     frame_obligations(ctx)
+    # premise: instantiation (Quantified.unquantify / substitute) replaces exactly the occurrences of the bound variable (C15)
+    from checks import c15 as _c15
+    ctx.restate(_c15.run, 'C15.', 'C04.subst.', keep=lambda n: 'substitute' in n or 'unquantify' in n or 'rshift' in n)
     ctx.samples = [dict(obligation=r.name, where=r.where, status=r.status, meta={k: v for k, v in r.meta.items() if k in ('node', 'designation', 'schema', 'direction', 'kind')})
                    for r in ctx.results if r.name.endswith('.forward')][:5]
     ctx.replayers['C04.'] = lambda r: replay(dict(obligation=r.name, counterexample=r.cex, meta=r.meta))
